@@ -830,8 +830,9 @@ def _split_model(a, indices, axis=0):
 
 
 def _einsum_model(spec, *ops, **kw):
-    """einsum over concrete tensors of polynomials (small sizes): explicit sum over index assignments"""
-    if not isinstance(spec, str) or not all(isinstance(o, AT) and all(isinstance(x, int) for x in o.axes) for o in ops):
+    """einsum over tensors of polynomials: explicit sum over the assignments of the concrete indices; a named (row / grid) axis
+    is carried when its letter is in the output and becomes a Sum binder when it is contracted"""
+    if not isinstance(spec, str) or not all(isinstance(o, AT) for o in ops) or '->' not in spec or '.' in spec:
         return term('einsum', spec, *ops)
     lhs, rhs = [x.strip() for x in spec.split('->')]
     ins = [x.strip() for x in lhs.split(',')]
@@ -843,25 +844,30 @@ def _einsum_model(spec, *ops, **kw):
             raise Finding(f"einsum: operand with axes {o.axes} does not match subscripts {sub!r}")
         for ch, n in zip(sub, o.axes):
             if sizes.setdefault(ch, n) != n:
-                raise Finding(f"einsum: inconsistent size for index {ch!r} in {spec!r}")
+                raise Finding(f"einsum: inconsistent extents {sizes[ch]} / {n} for index {ch!r} in {spec!r}")
     for ch in rhs:
         if ch not in sizes:
             raise Finding(f"einsum: output index {ch!r} not among the inputs in {spec!r}")
-    contracted = [ch for ch in sizes if ch not in rhs]
-    out_shape = tuple(sizes[ch] for ch in rhs)
+    conc = [ch for ch in sizes if isinstance(sizes[ch], int)]
+    contracted = [ch for ch in conc if ch not in rhs]
+    named_contracted = [ch for ch in sizes if not isinstance(sizes[ch], int) and ch not in rhs]
+    out_conc = [ch for ch in rhs if isinstance(sizes[ch], int)]
+    out_shape = tuple(sizes[ch] for ch in out_conc)
     out = np.empty(out_shape, dtype=object)
     import itertools
     for oi in np.ndindex(out_shape):
-        env = dict(zip(rhs, oi))
+        env = dict(zip(out_conc, oi))
         acc = Poly()
         for ci in itertools.product(*[range(sizes[ch]) for ch in contracted]):
             env.update(zip(contracted, ci))
             term_ = Poly.const(1)
             for sub, o in zip(ins, ops):
-                term_ = term_ * o.data[tuple(env[ch] for ch in sub)]
+                term_ = term_ * o.data[tuple(env[ch] for ch in sub if isinstance(sizes[ch], int))]
             acc = acc + term_
+        for ch in named_contracted:
+            acc = alg.bind('Sum', sizes[ch], acc)
         out[oi] = acc
-    return AT(out_shape, out)
+    return AT(tuple(sizes[ch] for ch in rhs), out)
 
 
 class IndexExpr:
@@ -1099,6 +1105,11 @@ def _math_prod(x, *a, **k):
 def _take(a, indices, axis=None, **kw):
     if axis is not None and fz(axis) == 0 and isinstance(indices, Sym):
         return Sym('gather', fz(a), indices)          # rows of `a` at the index vector: same as a[indices]
+    if isinstance(a, AT) and axis is not None and isinstance(fz(axis), int) and isinstance(fz(indices), int):
+        nd = len(a.axes)
+        idx = [slice(None)] * nd
+        idx[fz(axis) % nd] = fz(indices)
+        return a[tuple(idx)]
     return term('take', a, indices, axis=axis)
 
 
@@ -1344,7 +1355,8 @@ def make_world_externals(world_ref):
     jnp = NS("jnp",
              array=_jnp_array, asarray=_jnp_array,
              stack=symaware('stack', alg.jnp_stack), concatenate=symaware('concatenate', alg.jnp_concatenate),
-             hstack=symaware('hstack', alg.jnp_hstack),
+             hstack=symaware('hstack', alg.jnp_hstack), column_stack=symaware('column_stack', alg.jnp_column_stack),
+             vstack=symaware('vstack', alg.jnp_vstack),
              sum=_jnp_sum_model, mean=symaware('mean', alg.jnp_mean),
              trace=symaware('trace', alg.jnp_trace), abs=symaware('abs', alg.jnp_abs), log=symaware('log', alg.jnp_log),
              squeeze=symaware('squeeze', alg.jnp_squeeze), expand_dims=symaware('expand_dims', alg.jnp_expand_dims),
@@ -1423,7 +1435,12 @@ def make_world_externals(world_ref):
         'dataclasses': NS("dataclasses", fields=dc_fields, InitVar=Subscriptable("InitVar")),
         'abc': NS("abc", abstractmethod=lambda f: f, ABC=ExternalClass('ABC')),
         'warnings': NS("warnings", warn=_print, catch_warnings=lambda *a, **k: None, filterwarnings=_print),
-        'operator': NS("operator", getitem=lambda a, b: a[b], add=lambda a, b: a + b),
+        'operator': NS("operator", getitem=lambda a, b: a[b], add=lambda a, b: a + b, sub=lambda a, b: a - b, mul=lambda a, b: a * b,
+                       truediv=lambda a, b: a / b, floordiv=lambda a, b: a // b, mod=lambda a, b: a % b, neg=lambda a: -a,
+                       pow=lambda a, b: a ** b, matmul=lambda a, b: a @ b, and_=lambda a, b: as_pred(a) & as_pred(b),
+                       or_=lambda a, b: as_pred(a) | as_pred(b), not_=lambda a: as_pred(a).negate() if isinstance(a, Pred) else (not a),
+                       itemgetter=lambda *k: (lambda o: o[k[0]] if len(k) == 1 else tuple(o[x] for x in k)),
+                       attrgetter=lambda n: (lambda o: getattr(o, n))),
         'numpy': NS("numpy", asarray=_np_asarray, cumsum=_np_cumsum, ndarray=ExternalClass('np.ndarray')),
         'math': NS("math", prod=_math_prod),
         'copy': NS("copy", deepcopy=lambda x: x),
